@@ -327,6 +327,9 @@ def write_replay(prop_id: str, payload: dict) -> Path:
 
 
 def write_evidence(prop_id: str, doc: dict):
-    d = ROOT / "evidence"
+    # evidence/ describes runs against /repo itself; runs against another copy of the
+    # repository (VERIF_REPO, used for seeded changes) write to an ignored directory
+    d = ROOT / "evidence" if str(REPO) == "/repo" else ROOT / "replays" / "evidence-other-repo"
+    d.mkdir(parents=True, exist_ok=True)
     d.mkdir(exist_ok=True)
     (d / f"{prop_id}.json").write_text(json.dumps(doc, indent=1, sort_keys=True, default=str, ensure_ascii=True) + "\n")
